@@ -448,7 +448,7 @@ func callSSA(p *Path, caller *frame, callpos token.Pos, fn *ssa.Function, args [
 				return callSSA(p, caller, callpos, target, args, nil)
 			}
 		}
-		if m := info.model; m != nil {
+		if m := info.model; m != nil && fn != p.forceExec {
 			p.noteModel(fn)
 			return m(caller, fn, args)
 		}
